@@ -59,7 +59,17 @@ class SandboxCoverageTracer(SandboxBasicTracer):
         self.missing = set()
         self.lines = set()
 
+    def as_filename(self, filename, code):
+        # A student file that imports another student file re-enters this
+        # tracer: the measurement that is running stays about the outer file
+        if getattr(self, '_depth', 0):
+            return self
+        return super().as_filename(filename, code)
+
     def __enter__(self):
+        self._depth = getattr(self, '_depth', 0) + 1
+        if self._depth > 1:
+            return
         # Force coverage to accept the code
         self.original = coverage.python.get_python_source
 
@@ -73,9 +83,15 @@ class SandboxCoverageTracer(SandboxBasicTracer):
         self.p.start()
         #coverage.python.get_python_source = _get_source_correctly
         self.coverage = coverage.Coverage()
+        # coverage.stop() switches tracing off altogether; whoever was tracing
+        # before this execution (a debugger, another coverage run) gets it back
+        self.old_tracer = sys.gettrace()
         self.coverage.start()
 
     def __exit__(self, exc_type, exc_val, traceback):
+        self._depth -= 1
+        if self._depth:
+            return
         self.coverage.stop()
         self.coverage.save()
         # Restore the get_python_source reader
@@ -91,8 +107,12 @@ class SandboxCoverageTracer(SandboxBasicTracer):
 
         self.p.stop()
         self.original = None
+        # This very frame was entered while coverage was tracing: its local
+        # trace function would switch tracing off again when it returns
+        sys._getframe().f_trace = None
+        sys.settrace(self.old_tracer)
+        self.old_tracer = None
 
-    
     @property
     def percent_covered(self):
         """
